@@ -3224,12 +3224,16 @@ type RegisteredNexthop struct {
 	Prefix netip.Addr
 }
 
-func (n *RegisteredNexthop) len() int {
+func (n *RegisteredNexthop) len(version uint8, software Software) int {
 	// Connected (1 byte) + Address Family (2 bytes) + Prefix Length (1 byte) + Prefix (variable)
-	if n.Family == uint16(syscall.AF_INET) {
-		return 4 + net.IPv4len
+	l := 4
+	if version == 6 && software.name == "frr" && software.version >= 8.2 {
+		l += 3 // resolve_via_default (1 byte) + safi (2 bytes)
 	}
-	return 4 + net.IPv6len
+	if n.Family == uint16(syscall.AF_INET) {
+		return l + net.IPv4len
+	}
+	return l + net.IPv6len
 }
 
 // Ref: sendmsg_nexthop in bgpd/bgp_nht.c of Quagga1.2.x (ZAPI3)
@@ -3245,8 +3249,8 @@ func (n *RegisteredNexthop) serialize(version uint8, software Software) ([]byte,
 	buf[0] = n.connected // stream_putc(s, (connected) ? 1 : 0);
 	pos := 1
 	if version == 6 && software.name == "frr" && software.version >= 8.2 {
-		buf[1] = n.resolveViaDef
-		binary.BigEndian.PutUint16(buf[1:3], uint16(SafiUnicast)) // stream_putw(s, PREFIX_FAMILY(p));
+		buf[1] = n.resolveViaDef                                  // stream_putc(s, (resolve_via_def) ? 1 : 0);
+		binary.BigEndian.PutUint16(buf[2:4], uint16(SafiUnicast)) // stream_putw(s, safi);
 		pos += 3
 	}
 	// Address Family (2 bytes)
@@ -3258,7 +3262,7 @@ func (n *RegisteredNexthop) serialize(version uint8, software Software) ([]byte,
 		return nil, err
 	}
 
-	buf[3] = byte(addrByteLen * 8) // stream_putc(s, p->prefixlen);
+	buf[pos+2] = byte(addrByteLen * 8) // stream_putc(s, p->prefixlen);
 	// pos += 1
 	// Prefix (variable)
 	switch n.Family {
@@ -3353,7 +3357,7 @@ func (b *NexthopRegisterBody) decodeFromBytes(data []byte, version uint8, softwa
 		}
 		b.Nexthops = append(b.Nexthops, nh)
 
-		offset += nh.len()
+		offset += nh.len(version, software)
 		if len(data) < offset {
 			break
 		}
